@@ -559,7 +559,13 @@ func (p *vfProxy) Wire(r *vfReq) *vfResp {
 	if _, err := c.Write(rr.Bytes()); err != nil {
 		return &vfResp{Err: "write: " + err.Error(), Header: http.Header{}}
 	}
-	res, err := http.ReadResponse(bufio.NewReader(c), &http.Request{Method: r.Method})
+	br := bufio.NewReader(c)
+	res, err := http.ReadResponse(br, &http.Request{Method: r.Method})
+	informational := 0
+	for err == nil && res.StatusCode >= 100 && res.StatusCode < 200 && res.StatusCode != 101 && informational < 10 {
+		informational++ // 1xx interim responses (100 Continue, 103 Early Hints): the final response follows on the same connection
+		res, err = http.ReadResponse(br, &http.Request{Method: r.Method})
+	}
 	if err != nil {
 		out := &vfResp{Err: "read: " + err.Error(), Header: http.Header{}}
 		if strings.Contains(p.srvLog.String(), "panic serving") {
